@@ -243,6 +243,8 @@ struct Actor {
 }
 
 pub struct History {
+    /// name of the directed scenario this history runs (None: seeded random walk / enumerated symbols)
+    pub directed: Option<String>,
     pub seed: u64,
     pub profile: Profile,
     pub s4: S4,
@@ -334,6 +336,7 @@ impl History {
         }
         let config = json!({"max_segment_size": seg.0, "max_segment_count": seg.1, "max_outgoing_packet_count": max_out, "strategy": format!("{strategy:?}"), "max_connections": profile.max_connections, "clients": n});
         History {
+            directed: None,
             seed,
             profile: profile.clone(),
             s4,
@@ -1548,8 +1551,46 @@ impl History {
         }
     }
 
+    /// Directed scenario: a client that stays connected but never collects what the broker hands it sends `rounds`
+    /// requests, each in a batch of its own (more than the 200 wake-up tokens its link channel holds); everybody
+    /// else keeps being served. With the well-behaved pair (C14) the pair works throughout.
+    pub fn never_collecting_client(&mut self, rounds: usize) {
+        crate::watch::set_history(self.replay_json());
+        let n = self.actors.len();
+        let lazy = n - 1;
+        for a in 0..n {
+            self.connect(a, None);
+        }
+        self.step(Step::Turn);
+        if self.profile.guarded_pair {
+            self.subscribe(1, &[("a/#".to_owned(), 1)], true);
+            self.step(Step::Turn);
+        }
+        self.corner("client-never-collects");
+        for i in 0..rounds {
+            if self.done() {
+                return;
+            }
+            self.ping(lazy);
+            self.step(Step::Turn);
+            if i % 16 == 0 {
+                // the others are served meanwhile
+                let other = if self.profile.guarded_pair { 0 } else { i / 16 % (n - 1) };
+                self.publish(other, "a/b", (i % 3) as u8, false, false, None, true);
+                self.step(Step::Turn);
+                for a in 0..n - 1 {
+                    self.drain(a);
+                    self.flush_acks(a, usize::MAX);
+                    self.send_ready(a);
+                }
+                self.step(Step::Turn);
+            }
+        }
+    }
+
     /// Run a whole random history
     pub fn run_random(&mut self) {
+        crate::watch::set_history(self.replay_json());
         // everybody connects first (most histories), then the random walk
         let n = self.actors.len();
         let ops = self.rng.range(self.profile.ops.0, self.profile.ops.1);
@@ -1658,6 +1699,7 @@ impl History {
     /// Fixed prologue of the enumerated short histories: two clients connected, overlapping plain and
     /// shared subscriptions, one QoS 1 message forwarded and not yet acknowledged.
     pub fn prologue(&mut self) {
+        crate::watch::set_history(self.replay_json());
         self.set_persistent(0, true);
         self.set_persistent(1, false);
         self.actors[0].has_will = true;
@@ -1793,6 +1835,7 @@ impl History {
     pub fn replay_json(&self) -> Value {
         json!({
             "substrate": "S4",
+            "directed": self.directed,
             "profile": self.profile.name,
             "case_seed": self.seed,
             "forced_trigger_free": self.forced,
